@@ -5,24 +5,11 @@
 (* a run the three laws are checked on the logged results of the REAL       *)
 (* merge (directly, and as refinement of the spec's Merge).                 *)
 (* Verdicts are printed, one JSON line per failing step.                    *)
-EXTENDS Crdt, Json, IOUtils
+EXTENDS Crdt, CrdtJson, Json, IOUtils
 
 Rec == ndJsonDeserialize(IOEnv.TRACE)
 VARIABLE l
 tvars == <<vars, l>>
-
-Range(s) == {s[i] : i \in DOMAIN s}
-
-(* JSON observation -> the shape of Obs(). *)
-JCrdt(c) ==
-  CASE c.k = "lww"       -> [k |-> "lww", l |-> c.l]
-    [] c.k = "hash"      -> [k |-> "hash", h |-> Range(c.h)]
-    [] c.k = "gcounter"  -> [k |-> "gcounter", c |-> Range(c.c)]
-    [] c.k = "pncounter" -> [k |-> "pncounter", p |-> Range(c.p), n |-> Range(c.n)]
-    [] c.k = "gset"      -> [k |-> "gset", s |-> Range(c.s)]
-    [] c.k = "orset"     -> [k |-> "orset", e |-> {<<p[1], Range(p[2])>> : p \in Range(c.e)}]
-JObs(o) == [c |-> JCrdt(o.c), vc |-> Range(o.vc), hasvc |-> o.hasvc,
-            exp |-> o.exp, ts |-> o.ts, rf |-> o.rf]
 
 Dev(d) == d \in AsBuilt
 MaskR(o) == IF Dev("stamp_keeps_self_replica") THEN [o EXCEPT !.ts = <<@[1], 0>>] ELSE o
